@@ -90,7 +90,7 @@ CLAIMS = {
          'restored output contains no placeholder; the split pattern is the tree of \\r\\n|\\r|\\n and on it the model matcher is characterised completely: '
          'the lines the reader sees are those of the list function splitNl, so re-encoding CR LF and CR as LF gives the same reader and the same rendering for every source '
          '(line_terminators_are_interchangeable). Re-encoded twins (uniform and mixed) are also rendered and compared on the implementation.',
-    note=COMMON_NOTE + 'Full for the model; that the implementation has no other consumer of raw carriage returns is what the twin oracle explores.',
+    note=COMMON_NOTE + 'Full for the two invariance clauses (terminators, reserved characters as blanks); the clause that no reserved character reaches the output is proved for placeholder restoration given a clean queue, not for every reachable session. That the implementation has no other consumer of raw carriage returns is what the twin oracle explores.',
     technique='Lean 4 proof (reader blanking, complete characterisation of the line-split matcher, placeholder queue induction) + re-encoded twin oracle',
     ref='7 C16'),
  'C17': dict(
